@@ -9,6 +9,7 @@ import XV.Drv.Acl
 import XV.Drv.EncMain
 import XV.Drv.Sched
 import XV.Drv.Pool
+import XV.Drv.Contract
 /-! line-protocol model driver: `xvdriver <engine> < ops.txt > model.out` -/
 def main (args : List String) : IO UInt32 := do
   match args with
@@ -23,4 +24,5 @@ def main (args : List String) : IO UInt32 := do
   | ["enc"] => XV.Drv.EncMain.run; return 0
   | ["sched"] => XV.Drv.Sched.run; return 0
   | ["pool"] => XV.Drv.Pool.run; return 0
+  | ["contract"] => XV.Drv.Contract.run; return 0
   | _ => IO.eprintln "usage: xvdriver <engine>"; return 2
